@@ -420,10 +420,17 @@ def repeat(x, repeats, /, *, axis=0):
     if not isinstance(repeats, int):
         raise ValueError("repeat only supports integral values for `repeats`")
 
+    if repeats < 0:
+        raise ValueError("repeats may not be negative")
+
     if axis is None:
         x = flatten(x)
         axis = 0
     axis = validate_axis(axis, x.ndim)
+
+    if repeats == 0:
+        # nothing is repeated: the result is empty along the axis
+        return x[tuple(slice(0, 0) if i == axis else slice(None) for i in range(x.ndim))]
 
     shape = x.shape[:axis] + (x.shape[axis] * repeats,) + x.shape[axis + 1 :]
     chunks = normalize_chunks(x.chunksize, shape=shape, dtype=x.dtype)
